@@ -291,6 +291,12 @@ def execute(sc, ctx):
     want = (fs / B / fl) / (Fraction(B) / fs * fl * itf)
     ctx.check(_close(abs(udr), float(want), ulps=8), "helpers", "C20/helpers/get_unit_drift_rate", lambda: "%r vs %r" % (udr, float(want)))
     pf = stg.params_from_backend(obs_length=hp["obs_length"], sample_rate=ant["fs"], num_branches=B, fftlength=fl, int_factor=itf)
+    # what a helper returned stays what it was when the helper is asked about another configuration
+    pf_snap = copy.deepcopy(pf)
+    pf_other = stg.params_from_backend(obs_length=hp["obs_length"] * 2 + 1.0, sample_rate=ant["fs"], num_branches=B, fftlength=fl * 2,
+                                       int_factor=itf + 1)
+    ctx.check(pf == pf_snap and pf_other is not pf, "helpers", "C20/helpers/params_from_backend/result_changed_by_later_call",
+              lambda: "held %r, was %r" % (pf, pf_snap))
     df = fs / B / fl
     dt = Fraction(itf) / df
     xt = Fraction(hp["obs_length"]) / dt
